@@ -62,6 +62,11 @@ def run(ctx):
         d = min(depth, 20000) if i == 6 else depth          # the long dotted path is quadratic in the parser
         cases.append(("deep-query", form(d), '{"a":1}'))
         cases.append(("deep-query", form(999), '{"a":{"b":[{"b":[1]}]}}'))
+    # the same nesting behind every kind of literal and comment that could hide it from a hand-written depth check: a quote
+    # inside a character literal, a raw string, an escaped quote, comments
+    for pre in ("'\"' == ", "`\"` == ", '"\\"" == ', "'\\'' == ", '/* " */ ', '// "\n', "'(' == ", 'r"\\"" == ', "'\"' == '\"' or "):
+        cases.append(("deep-query", pre + "(" * depth + "a" + ")" * depth, '{"a":1}'))
+        cases.append(("deep-query", pre + "(" * 1500 + "a" + ")" * 1500 + " or b == '\"'", '{"a":1}'))
     for rec in ("[" * depth + "]" * depth, '{"a":' * depth + "1" + "}" * depth, '{"a":"' + "[" * depth + "]" * depth + '"}',
                 '{"a":"' + "<r>" * min(depth, 5000) + "</r>" * min(depth, 5000) + '"}'):
         for q in ('a', 'a.json()[0]', 'a.xml().r.r', 'a..a', 'redact("..a")'):
